@@ -577,10 +577,13 @@ pub fn run(tier: &str, seed: u64, s: &mut Sink) {
         }
         let req = r.pick(&[1u16, 2, 3, 4, 7]);
         let mut p = valid_with(&mut r, &macs, m, req);
-        let at = match r.below(3) {
+        // defect early (followed by plenty of valid blocks), in the middle, or late (preceded by plenty)
+        let at = match r.below(6) {
             0 => 0,
             1 => 1,
-            _ => r.below(nch as u64 / 2) as usize,
+            2 | 3 => r.below(nch as u64 / 2) as usize,
+            4 => nch - 2,
+            _ => r.range(nch as u64 / 2, nch as u64 - 2) as usize,
         };
         let label = match r.below(8) {
             0 => {
